@@ -45,6 +45,9 @@ def main():
     for p in sorted(glob.glob(os.path.join(VERIF, "mutants", "*.patch"))):
         name = os.path.basename(p)[:-6]
         items.append((name.split("-")[0], name, p))
+    for p in sorted(glob.glob(os.path.join(VERIF, "controls", "*.patch"))):
+        name = os.path.basename(p)[:-6]
+        items.append((name.split("-")[0], "control/" + name, p))
     if seeded:
         for d in sorted(glob.glob(os.path.join(VERIF, "seeded", "*"))):
             mp = os.path.join(d, "meta.json")
@@ -60,7 +63,11 @@ def main():
         res = run_one(prop, patch, runs)
         results[name] = dict(res, property=prop)
         print(f"{name:50s} {res['status']:14s} {res.get('wall_s','')}", flush=True)
-        if res["status"] != "caught":
+        expected = "MISSED" if name.startswith("control/") else "caught"
+        if name.startswith("control/"):
+            res["expected"] = "no alarm (semantics-preserving change)"
+            results[name] = dict(res, property=prop)
+        if res["status"] != expected:
             bad += 1
             for l in res.get("lines", [])[-8:]: print("    ", l)
         json.dump(results, open(out_path, "w"), indent=1, sort_keys=True)
